@@ -80,6 +80,33 @@ def D(a, b=0.0):
 D0 = D(0)
 
 
+def _space_masks(key):
+    """conditions that selected the rows of a (possibly nested) sub-space"""
+    out = []
+    while isinstance(key, tuple) and key and key[0] in ("sub", "slice"):
+        if key[0] == "sub" and isinstance(key[2], Expr):
+            out.append(key[2])
+        key = key[1]
+    return out
+
+
+def _masks_degree(key, decl):
+    for m in _space_masks(key):
+        d = degree(m, decl)
+        if is_top(d):
+            return Top("rows are selected by a condition that is not scale-free: " + d.reason, d.culprit if d.culprit is not None else m)
+    return None
+
+
+def _masks_weight(key, decl):
+    for m in _space_masks(key):
+        w = weight(m, decl)
+        if is_top(w):
+            return Top("rows are selected by a condition that changes under translation: " + w.reason,
+                       w.culprit if w.culprit is not None else m)
+    return None
+
+
 def degree(e: Expr, decl: DegDecl):
     """degree of homogeneity as (a, b) meaning a + b*p; POLY for 0/inf/nan literals; Top if not homogeneous"""
     t = e[0]
@@ -88,7 +115,9 @@ def degree(e: Expr, decl: DegDecl):
         if v == 0 or math.isinf(v) or math.isnan(v):
             return POLY
         return D0
-    if t in ("bool", "str", "size", "iv"):
+    if t == "size":
+        return _masks_degree(e[1], decl) or D0
+    if t in ("bool", "str", "iv"):
         return D0
     if t == "in":
         v = decl.inputs.get(e[1], decl.default_input)
@@ -183,8 +212,11 @@ def degree(e: Expr, decl: DegDecl):
             return D0
         return Top(f"function {name} has no degree rule", e)
     if t == "sum":
-        return degree(e[3], decl)
+        return _masks_degree(e[2], decl) or degree(e[3], decl)
     if t == "red":
+        bad = _masks_degree(e[3], decl)
+        if bad is not None:
+            return bad
         d = degree(e[4], decl)
         if e[1] in ("all", "any"):
             return d if is_top(d) else D0
@@ -334,7 +366,9 @@ def weight(e: Expr, decl: ShiftDecl):
         if math.isinf(v) or math.isnan(v):
             return ANYW
         return sym.ZERO
-    if t in ("bool", "str", "size", "iv", "sym"):
+    if t == "size":
+        return _masks_weight(e[1], decl) or sym.ZERO
+    if t in ("bool", "str", "iv", "sym"):
         return sym.ZERO
     if t == "in":
         f = decl.inputs.get(e[1], decl.default)
@@ -409,6 +443,8 @@ def weight(e: Expr, decl: ShiftDecl):
             return w
         if name in ("float32", "sort", "real"):
             return ws[0]
+        if name in ("isfinite", "isinf", "isnan") and not any(is_top(w) for w in ws):
+            return sym.ZERO  # x + w*t is finite exactly when x is (t finite)
         if name in ("l1_sorted", "l1_positional"):
             # Σ|sorted(a) − sorted(b)|: every element of both vectors must move by the same amount
             w = _wj(ws[0], ws[1], e)
@@ -417,6 +453,9 @@ def weight(e: Expr, decl: ShiftDecl):
             return sym.ZERO
         return Top(f"{name}() of a translation-dependent quantity (weight {sym.show(ws[0])})", e)
     if t == "sum":
+        bad = _masks_weight(e[2], decl)
+        if bad is not None:
+            return bad
         w = weight(e[3], decl)
         if is_top(w) or w in (sym.ZERO, ANYW):
             return w if is_top(w) else sym.ZERO
@@ -424,6 +463,9 @@ def weight(e: Expr, decl: ShiftDecl):
             return Top("sum over rows of a quantity whose translation weight varies with the row", e)
         return sym.mul(sym.Size(e[2]), w)  # moves by n*w*t
     if t == "red":
+        bad = _masks_weight(e[3], decl)
+        if bad is not None:
+            return bad
         w = weight(e[4], decl)
         if e[1] in ("all", "any"):
             return w if is_top(w) else sym.ZERO
